@@ -19,10 +19,15 @@ Correspondence part (this file):
     independent stage Hamiltonians must equal rk4_step_t / rk45_step_t (grid deciding polynomial equality);
   * histories: AdiabaticEvolution (exp, rk4, Trotter) and StateEvolution objects executed 2-3 times with different
     final times; schedule arguments t/T, interpolated Hamiltonians and evaluation times per run, exactly;
-  * tolerance *tests* (labelled): Trotter error order, exp-solver final state, RK convergence order.
+  * tolerance *tests* (labelled): Trotter error order, exp-solver final state, RK convergence order;
+  * harness/c16_sched.py: adiabatic schedules leaving [0, 1] (non-monotone, > 1, < 0, constant pieces, s(t, p) with
+    set_parameters, total_time != 1) on dense and symbolic adiabatic Hamiltonians with every solver: H(t) at every
+    queried time and the Trotter coefficients against (1 - s) H0 + s H1 (schedule evaluated in Coq, exact), final
+    states against the same method from scratch; histories on one adiabatic Hamiltonian object (state machine
+    ad_run); scalar multiples of Hamiltonians with cached spectrum.
 """
 import os as _os
-STATIC = ["C16/Props", "C16/PropsSeries", "C16/History", "Base/TrigMat"]
+STATIC = ["C16/Props", "C16/PropsSeries", "C16/PropsSched", "C16/History", "Base/TrigMat"]
 import itertools
 import math
 import random
@@ -1207,6 +1212,10 @@ def main(run):
     run_exp_histories(run, rng)
     run_norm(run, rng)
     run_exp_solver(run, rng)
+    from harness import c16_sched
+    c16_sched.run_schedules(run, random.Random(run.seed + 16))
+    c16_sched.run_object_histories(run, random.Random(run.seed + 17))
+    c16_sched.run_scalar_histories(run, random.Random(run.seed + 18))
     run.notes["historical"] = ("coq/theories/C16/History.v holds lemmas about the pre-repair code (nsteps truncation, RK stages "
                                "without -i); they are not statements about the current tree")
     run.not_proved += ["nsteps_ok for ALL float triples whose real quotient is within 1/2 of an integer (needs the IEEE-754 axioms of Coq's Floats); proved: the bounded decimal grid of nsteps_ok_bounded; beyond it bit-exact comparison per run",
@@ -1219,7 +1228,7 @@ def main(run):
 
 def static_obligations(run):
     allres = {}
-    for theory in ("C16/Props", "C16/PropsSeries"):
+    for theory in ("C16/Props", "C16/PropsSeries", "C16/PropsSched"):
         p = theory + ".v"
         if not _os.path.exists(_os.path.join(vcore.THEORIES, p)):
             run.not_proved.append(p + " missing")
@@ -1266,6 +1275,13 @@ def replay(run, data):
     if key.startswith("adiabatic_total_time") or key.startswith("adiabatic_interpolation") or key.startswith("evolution_reuse"):
         run_histories(run, random.Random(run.seed))
         return run.finish(level="proof", rule="replay of the history generator (same seed)")
+    if key.startswith(("adiabatic_schedule", "adiabatic_object", "scalar_multiple", "coq:C16_sched")):
+        from harness import c16_sched
+        fn, off = ((c16_sched.run_schedules, 16) if key.startswith(("adiabatic_schedule", "coq:C16_sched_")) else
+                   (c16_sched.run_object_histories, 17) if key.startswith("adiabatic_object") else (c16_sched.run_scalar_histories, 18))
+        fn(run, random.Random(run.seed + off))
+        run.findings = [f for f in run.findings if f.key == key] or run.findings
+        return run.finish(level="proof", rule="replay of the schedule / object-history / scalar-history generator (same seed)")
     if key.startswith("rk_order"):
         run_rk(run, random.Random(0))
         return run.finish(level="proof", rule="replay of one recorded case")
